@@ -128,6 +128,42 @@ func main() {
 			fatalf("%v", err)
 		}
 		fmt.Println(bin)
+	case "warm":
+		// gosym warm: fills the go build cache with what the checks need (export data of the dependency closure
+		// under the verif tag, and the faketime variant of the native replay binaries), so that the first check after
+		// a fresh restore does not pay for compiling it. Best effort: a failure only makes the first check slower.
+		enableHugePages()
+		pkgSet := map[string]bool{}
+		for _, c := range loadChecks() {
+			for _, h := range c.Harnesses {
+				pkgSet[h.Pkg] = true
+			}
+		}
+		var pkgs []string
+		for p := range pkgSet {
+			pkgs = append(pkgs, p)
+		}
+		sort.Strings(pkgs)
+		t0 := time.Now()
+		loadProgramLean(pkgs)
+		fmt.Printf("front end for %d packages: %.1fs\n", len(pkgs), time.Since(t0).Seconds())
+		tmp, _ := os.MkdirTemp("", "gosym-warm-")
+		var wg sync.WaitGroup
+		sem := make(chan struct{}, 4)
+		for _, p := range pkgs {
+			wg.Add(1)
+			go func(p string) {
+				defer wg.Done()
+				sem <- struct{}{}
+				defer func() { <-sem }()
+				if _, err := buildReplayBinary(tmp, p, nil); err != nil {
+					fmt.Printf("warm: %s: %v\n", p, err)
+				}
+			}(p)
+		}
+		wg.Wait()
+		os.RemoveAll(tmp)
+		fmt.Printf("replay binaries: %.1fs in total\n", time.Since(t0).Seconds())
 	case "ssa":
 		p := loadProgram([]string{os.Args[2]})
 		fn := p.pkgs[os.Args[2]].Func(os.Args[3])
